@@ -512,6 +512,7 @@ def run_call(case, record=True, owned=False):
     old_stdout = sys.stdout
     sys.stdout = core.NullOut()
     pat = install_seams(sim, pool_kind)
+    _LIVE["pat"], _LIVE["stdout"] = pat, old_stdout
     np.random.seed(case["np_seed"] % (2 ** 32))
     _pyrandom.seed(case["py_seed"])
     gc_was = gc.isenabled()
@@ -545,6 +546,8 @@ def run_call(case, record=True, owned=False):
             if "_out_ref" in rec:
                 rec["out_final"] = snap_state(rec.pop("_out_ref"))
         remove_seams(pat)
+        _LIVE.pop("pat", None)
+        _LIVE.pop("stdout", None)
         sys.stdout = old_stdout
         if old_env is None:
             os.environ.pop("CUPCAKE_ENABLE_MULTIPROCESSING", None)
@@ -564,6 +567,21 @@ def run_call(case, record=True, owned=False):
     out.event_digest = digest([[e["kind"]] + [e.get(k) for k in ("pool", "task", "worker", "name", "occ")]
                                for e in sim.events])
     return out
+
+
+_LIVE = {}
+
+
+def abandon_call():
+    """Undo the seams of a call that was abandoned half-way (wall cap)."""
+    global _ACTIVE
+    pat = _LIVE.pop("pat", None)
+    if pat is not None:
+        _ACTIVE = None
+        pat.restore()
+    if "stdout" in _LIVE:
+        sys.stdout = _LIVE.pop("stdout")
+    gc.enable()
 
 
 def owned_recheck(out):
